@@ -8,25 +8,6 @@ use crate::{error::ErrorData, error::ToLocated};
 use std::f32::consts::PI;
 use std::rc::Rc;
 
-fn apply<R: RealNumberInternalTrait>(
-    arguments: impl IntoIterator<Item = Value<R>>,
-    env: Rc<Environment<R>>,
-) -> Result<Value<R>> {
-    let mut iter = arguments.into_iter();
-    let proc = iter.next().unwrap().expect_procedure()?;
-    let mut args = iter.collect::<ArgVec<R>>();
-    if !args.is_empty() {
-        let extended = args.pop().unwrap();
-
-        let extended = match extended {
-            Value::Pair(p) => p.into_iter().collect::<ArgVec<R>>(),
-            other => return error!(LogicError::TypeMisMatch(other.to_string(), Type::Pair))?,
-        };
-        args.extend(extended);
-    }
-    Interpreter::apply_procedure(&proc, args, &env)
-}
-
 fn car<R: RealNumberInternalTrait>(
     arguments: impl IntoIterator<Item = Value<R>>,
 ) -> Result<Value<R>> {
@@ -733,10 +714,13 @@ pub fn library_map<R: RealNumberInternalTrait>() -> Vec<(String, Value<R>)> {
 
 fn library_map_result<R: RealNumberInternalTrait>() -> Result<Vec<(String, Value<R>)>> {
     Ok(vec![
-        function_mapping!(
-            "apply",
-            append_variadic_param!(param_fixed!["proc"], "args"),
-            apply
+        (
+            "apply".to_owned(),
+            Value::Procedure(Procedure::Builtin(BuiltinProcedure {
+                name: "apply".to_owned(),
+                parameters: append_variadic_param!(param_fixed!["proc"], "args"),
+                body: BuiltinProcedureBody::Apply,
+            })),
         ),
         pure_function_mapping!("car", param_fixed!["pair"], car),
         pure_function_mapping!("cdr", param_fixed!["pair"], cdr),
